@@ -17,6 +17,13 @@ AsFun(s_) == [i_ \in Inst |-> s_[i_]]
 Clause(e_) ==
     IF e_.ev = "Scribble"
       THEN IF AsFun(e_.bpost) # bs THEN "scale-follows-the-callers-array" ELSE "ok"
+    \* a grid the library REFUSED (its domain does not fit the transformation): the call returned nothing, so it
+    \* is not a grid the object "has seen" - no scale may be left behind and no scale may change
+    ELSE IF e_.ev = "Refused"
+      THEN IF AsFun(e_.bpre) # bs THEN "scale-changed-between-calls"
+           ELSE IF e_.exc = "" THEN "harness-logged-an-accepted-call-as-refused"
+           ELSE IF AsFun(e_.bpost) # bs THEN "refused-grid-leaves-a-scale-behind"
+           ELSE "ok"
     ELSE IF AsFun(e_.bpre) # bs THEN "scale-changed-between-calls"
     ELSE IF \E j_ \in Inst \ {e_.k} : e_.bpost[j_] # bs[j_] THEN "call-changed-the-scale-of-another-object"
     ELSE IF e_.xmax = 0 /\ bs[e_.k] = None
@@ -30,7 +37,7 @@ Clause(e_) ==
 Apply(e_) ==
     /\ bs' = AsFun(e_.bpost)
     /\ IF e_.ev = "Scribble" THEN Scribble(e_.k)
-       ELSE IF e_.xmax = 0 THEN ZeroCall(e_.k, e_.op)
+       ELSE IF e_.ev = "Refused" \/ e_.xmax = 0 THEN ZeroCall(e_.k, e_.op)
        ELSE Call(e_.k, e_.op, e_.xmax)
 Reset(t_) == /\ tid' = t_ /\ l' = 2 /\ last' = NoCall
              /\ bs' = IF t_ <= Len(Traces) THEN AsFun(Traces[t_][1].b0) ELSE [i_ \in Inst |-> None]
